@@ -37,109 +37,9 @@ GENS = {"A": _pos, "B": _B, "lb": _lb, "ub": _ub, "W": _pos, "K": _pos, "baselin
 def gaussian_fit(vc, cfg):
     """lsq_linear(model='gaussian') returns, for every finite target, intensities within the bounds whose weighted
     squared capture error is minimal over the box (row by row), pred == T(X), and zero error iff the target is in gamut"""
-    from dreye.api.optimize.lsq_linear import lsq_linear
+    from . import fitproc
 
-    nf, ns, m, bs = cfg["nf"], cfg["ns"], cfg["m"], cfg["bs"]
-    d = lsq.sym_inputs(vc, cfg, nf, ns, m)
-    o = vc.call(lsq_linear, d["A"], d["B"], batch_size=bs, return_pred=True, **lsq.call_kwargs(d))
-    facts = list(vc.facts)
-    if vc.symbolic and any(getattr(f, "infeasible", False) for f in facts):
-        # the solver contract reports infeasibility only if no point is feasible: refute with a box point
-        for f in facts:
-            if getattr(f, "infeasible", False):
-                v = f.problem.variables()[0]
-                reps = v.size // ns
-                wit = np.array([d["lb"][k] for _ in range(reps) for k in range(ns)], dtype=object)
-                f.instantiate_infeasible({v: wit})
-    if not vc.returns("terminates-normally", o):
-        return
-    X, pred = o.value
-    X, pred = np.asarray(X), np.asarray(pred)
-    vc.prove("X-shape", tuple(X.shape) == (m, ns), detail=str(X.shape))
-    vc.prove("pred-shape", tuple(pred.shape) == (m, nf), detail=str(pred.shape))
-    if tuple(X.shape) != (m, ns) or tuple(pred.shape) != (m, nf):
-        return
-    for r in range(m):
-        xr = [X[r, k] for k in range(ns)]
-        vc.prove(f"bounds[{r}]", lsq.in_box(vc, d, xr))
-        t = lsq.T(d, xr)
-        for j in range(nf):
-            vc.prove(f"pred[{r},{j}]==T(X)", vc.eq(pred[r, j], t[j]))
-    if vc.symbolic:
-        _optimality_sym(vc, cfg, d, X, facts)
-    else:
-        _optimality_native(vc, cfg, d, X)
-
-
-def _optimality_sym(vc, cfg, d, X, facts):
-    nf, ns, m, bs = cfg["nf"], cfg["ns"], cfg["m"], cfg["bs"]
-    nb = -(-m // bs)
-    vc.prove("one-solve-per-batch", len(facts) == nb, detail=f"{len(facts)} solves for {m} rows, batch {bs}")
-    if len(facts) != nb:
-        return
-    for r in range(m):
-        f = facts[r // bs]
-        v = f.problem.variables()[0]
-        blk = r % bs
-        xs = f.xstar[v]
-        vc.prove(f"scatter[{r}]", v.size == bs * ns and all(X[r, k] is xs[blk * ns + k] or vc.eq(X[r, k], xs[blk * ns + k]).c is True for k in range(ns)))
-        if v.size != bs * ns:
-            continue
-        xr = [X[r, k] for k in range(ns)]
-        # competitor z (Skolem constant of the negated optimality claim)
-        z = vc.array(f"z{r}", (ns,))
-        y = np.array(xs, dtype=object)
-        for k in range(ns):
-            y[blk * ns + k] = z[k]
-        feas, nw = f.instantiate({v: y})
-        zin = lsq.in_box(vc, d, [z[k] for k in range(ns)])
-        vc.prove(f"formulation-feasible[{r}]: box(z) => code-feasible(y)", vc.implies(zin, feas))
-        vc.prove(f"row-optimal[{r}]: box(z) => wls(X_r) <= wls(z)", vc.implies(zin, vc.le(lsq.wls(d, r, xr), lsq.wls(d, r, [z[k] for k in range(ns)]))))
-        # zero error <= in gamut: a pre-image x0 of the target inside the box (ghost point), by three cuts
-        x0 = vc.array(f"x0{r}", (ns,))
-        x0l = [x0[k] for k in range(ns)]
-        y0 = np.array(xs, dtype=object)
-        for k in range(ns):
-            y0[blk * ns + k] = x0[k]
-        f.instantiate({v: y0})
-        t0 = lsq.T(d, x0l)
-        in0 = lsq.in_box(vc, d, x0l)
-        hit = vc.all_(vc.eq(t0[j], d["B"][r, j]) for j in range(nf))
-        vc.lemma(f"lemma:box(x0)=>wls(X_r)<=wls(x0)[{r}]", vc.implies(in0, vc.le(lsq.wls(d, r, xr), lsq.wls(d, r, x0l))))
-        vc.lemma(f"lemma:T(x0)==B=>wls(x0)==0[{r}]", vc.implies(hit, vc.eq(lsq.wls(d, r, x0l), 0)))
-        vc.lemma(f"lemma:wls(X_r)>=0[{r}]", vc.ge(lsq.wls(d, r, xr), 0))
-        vc.prove(f"in-gamut=>zero-error[{r}]", vc.implies(vc.and_(in0, hit), vc.eq(lsq.wls(d, r, xr), 0)))
-    # formulation identity at a free point (names the code objective)
-    f = facts[0]
-    v = f.problem.variables()[0]
-    yf = vc.array("yf", (v.size,))
-    rows = [r for r in range(m) if r // bs == 0]
-    code_obj = f.objective({v: yf})
-    spec_obj = sum(lsq.wls(d, r, [yf[(r % bs) * ns + k] for k in range(ns)]) for r in rows)
-    vc.prove("formulation-objective: code == sum_rows wls", vc.eq(code_obj, spec_obj))
-    vc.canary("objective-constant", vc.eq(code_obj, 0))
-
-
-def _optimality_native(vc, cfg, d, X):
-    """bounded stand-in used for replay / cross-check: compare with an independent high-accuracy solve"""
-    import cvxpy as cp
-
-    nf, ns, m = cfg["nf"], cfg["ns"], cfg["m"]
-    for r in range(m):
-        x = cp.Variable(ns)
-        A, K, base = np.asarray(d["A"], float), d["K"], np.asarray(d["baseline"], float)
-        q = A @ x + (base if base.shape[0] == nf else np.full(nf, base[0]))
-        if K is not None:
-            Kf = np.asarray(K, float)
-            q = cp.multiply(Kf if Kf.shape[0] == nf else np.full(nf, Kf[0]), q) if Kf.ndim == 1 else Kf @ q
-        w = np.array([float(d["W"][r][j]) for j in range(nf)])
-        cons = [x >= np.array([float(v) for v in d["lb"]])]
-        if d["ub"] is not None:
-            cons.append(x <= np.array([float(v) for v in d["ub"]]))
-        prob = cp.Problem(cp.Minimize(cp.sum_squares(cp.multiply(w, q - np.asarray(d["B"], float)[r]))), cons)
-        prob.solve(solver=cp.CLARABEL)
-        mine = float(lsq.wls(d, r, [X[r, k] for k in range(ns)]))
-        vc.prove(f"row-optimal[{r}] (native oracle)", mine <= prob.value + 2e-2 * max(1.0, abs(prob.value)), detail=f"code {mine} oracle {prob.value}")
+    fitproc.fit_contract(vc, dict(cfg, proc="gaussian"), level="full")
 
 
 def estimator_fit(vc, cfg):
